@@ -1831,6 +1831,11 @@ class Engine:
             if d.startswith(DROPPED_PREFIXES) or d in DROPPED_NAMES or \
                     d in DROPPED_ATTRS:
                 self.dropped_calls += 1
+                if self.eval_log_args and d.startswith('logging.'):
+                    # the message is built eagerly in the real program: an
+                    # exception while formatting it is an exception of the
+                    # program (what the engine cannot evaluate is skipped)
+                    self._eval_log_args(e, env, mod, clsctx)
                 return None
         # zero-argument super()
         if isinstance(e.func, ast.Name) and e.func.id == 'super' and \
@@ -1862,6 +1867,18 @@ class Engine:
         return self.call(fn, args, kwargs)
 
     star_handlers = {}
+    eval_log_args = True
+
+    def _eval_log_args(self, e, env, mod, clsctx):
+        p = cur()
+        for a in e.args:
+            taken = len(p.taken)
+            try:
+                self.eval(a, env, mod, clsctx)
+            except Unsupported:
+                # best effort; decisions taken while trying stay (they only
+                # split the path)
+                continue
 
     def call(self, fn, args, kwargs):  # noqa: C901
         fn = force(fn)
